@@ -2,7 +2,7 @@
 # usage: try_mutant.sh <worktree> <patch.diff> <property> [tier]   -- applies the patch in the scratch worktree, runs the check against it, reverts
 wt=$1; patch=$2; prop=$3; tier=${4:-quick}
 git -C $wt checkout -q -- . && git -C $wt apply $patch || { echo "patch does not apply"; exit 2; }
-VP_REPO=$wt /verif/checks/run.sh $prop $tier > /tmp/try_$$.log 2>&1; rc=$?
+mkdir -p /tmp/mutant_evidence /tmp/mutant_replays; VERIF_EVIDENCE_DIR=/tmp/mutant_evidence VERIF_REPLAY_DIR=/tmp/mutant_replays VP_REPO=$wt /verif/checks/run.sh $prop $tier > /tmp/try_$$.log 2>&1; rc=$?
 git -C $wt checkout -q -- .
 grep -c "^VIOLATION" /tmp/try_$$.log | sed "s/^/violations: /"; grep "^VIOLATION" /tmp/try_$$.log | head -3 | cut -c1-260; grep "^KNOWN\|^UNDECIDED" /tmp/try_$$.log | head -3 | cut -c1-200; tail -1 /tmp/try_$$.log | cut -c1-200; echo "rc=$rc"; rm -f /tmp/try_$$.log
 exit $rc
